@@ -79,3 +79,37 @@ package scenario
 //@ ensures [all-calls-on-success] imp(result == nil, calls(g.shootStep) == len(ammo.Calls))
 //@ ensures [stops-at-the-first-failed-call] imp(result != nil, result == result_of(g.shootStep, 0))
 //@ ensures [one-sample-per-executed-call] ev(report) == old(ev(report)) + calls(g.shootStep)
+
+// ---------------------------------------------------------------- construction: every option reaches the underlying gRPC gun
+
+//@ func NewGun
+//@ props C20 C17
+//@ ensures [options-forwarded-to-the-grpc-gun] fresh(result) && result.gun != nil && result.gun.Conf.Target == conf.Target && result.gun.Conf.ReflectPort == conf.ReflectPort && result.gun.Conf.ReflectMetadata == conf.ReflectMetadata && result.gun.Conf.Timeout == conf.Timeout && result.gun.Conf.TLS == conf.TLS
+//@ ensures [dial-options-forwarded] result.gun.Conf.DialOptions.Authority == conf.DialOptions.Authority && result.gun.Conf.DialOptions.Timeout == conf.DialOptions.Timeout
+//@ ensures [answer-log-options-forwarded] result.gun.Conf.AnswLog.Enabled == conf.AnswLog.Enabled && result.gun.Conf.AnswLog.Path == conf.AnswLog.Path && result.gun.Conf.AnswLog.Filter == conf.AnswLog.Filter && result.gun.AnswLog == result_of(answlog.Init, 0)
+//@ ensures [own-templater-and-random-source] result.templ == box(result_of(NewTextTemplater, 0)) && result.rand == result_of(rand.New, 0)
+//@ at call answlog.Init assert [configured-log] arg(path) == conf.AnswLog.Path && arg(enabled) == conf.AnswLog.Enabled
+
+//@ func DefaultGunConfig
+//@ props C17 C20
+//@ ensures [documented-defaults] result.Target == "default target" && !result.AnswLog.Enabled && result.AnswLog.Path == "answ.log" && result.AnswLog.Filter == "all" && result.Timeout == 0 && !result.TLS
+
+//@ func (g *Gun) WarmUp
+//@ props C20
+//@ nilsafe
+//@ requires g.gun != nil
+//@ at call g.gun.WarmUp assert arg(opts) == opts0
+//@ ensures result0 == result_of(g.gun.WarmUp, 0) && result1 == result_of(g.gun.WarmUp, 1)
+
+//@ func (g *Gun) Bind
+//@ props C20 C11
+//@ nilsafe
+//@ requires g.gun != nil && deps.Log != nil
+//@ at call g.gun.Bind assert arg(aggr) == aggr0 && arg(deps) == deps0
+//@ ensures result == result_of(g.gun.Bind, 0)
+
+//@ struct GunConfig
+//@ props C17 C20
+//@ tag Target validate required
+//@ tag ReflectPort config reflect_port
+//@ tag Timeout config timeout
